@@ -139,8 +139,9 @@ inline ceval_t evaluate(const cdata_t& c, const VectorXd& x)
                 double gi = c.v(i), bi = std::fabs(c.v(i));
                 for (Eigen::Index j = 0; j < n; ++j)
                 {
-                    gi += c.P(i, j) * x(j);
-                    bi += std::fabs(c.P(i, j) * x(j));
+                    // d/dx_i of 1/2 x'Px = 1/2 sum_j (P_ij + P_ji) x_j  (= (Px)_i only for symmetric P)
+                    gi += 0.5 * (c.P(i, j) + c.P(j, i)) * x(j);
+                    bi += 0.5 * (std::fabs(c.P(i, j) * x(j)) + std::fabs(c.P(j, i) * x(j)));
                     s += 0.5 * x(i) * c.P(i, j) * x(j);
                     e.a += 0.5 * std::fabs(x(i) * c.P(i, j) * x(j));
                 }
